@@ -1,0 +1,33 @@
+/*
+ * Verification hook (only compiled with -DKAUZLARI_SYMPLER_VERIF).
+ * A Callable that dumps the complete simulation state after every time step.
+ */
+#ifndef __VERIF_OBSERVER_H
+#define __VERIF_OBSERVER_H
+
+#ifdef KAUZLARI_SYMPLER_VERIF
+
+#include <cstdio>
+#include <string>
+#include "callable.h"
+
+class VerifObserver : public Callable
+{
+ protected:
+  std::string m_filename;
+  FILE *m_file;
+  void init();
+  void dump(long step);
+ public:
+  VerifObserver(Simulation* sim);
+  virtual ~VerifObserver();
+  virtual void setup();
+  virtual void call(size_t timestep);
+  /*! called once by Controller::run before the main loop (state "step -1") */
+  static void dumpInitial(Simulation* sim);
+  /*! one trace line per executed symbol module (called by Controller::runSymbols) */
+  static void traceSymbol(const char* kind, size_t stage, const std::string& className, const std::string& symbolName);
+};
+
+#endif
+#endif
